@@ -8,6 +8,13 @@ open Ptk.Py
 
 variable (cw : Char → Nat)
 
+/-- side conditions on the attribute functions: the default char's style is not counted as content by
+    `get_max_column_index`, and displaying attributes at a colour depth never adds colour / underline /
+    … (the encoder drops or quantises colours and copies the flags) -/
+structure EnvOk (e : Env) : Prop where
+  dflt : (e.rawOf 1).hasStyle = false
+  enc : ∀ a : Attrs, a.hasStyle = false → (e.enc e.depth a).hasStyle = false
+
 /-- what must hold when `_output_screen_diff` is entered: the renderer's `_cursor_pos` is where the
     terminal cursor is, `_last_style` agrees with the SGR state, and in full-screen mode autowrap is
     still off from the previous render -/
@@ -305,13 +312,19 @@ theorem not_counted (a : Nat → Attrs) (hdef : (a 1).hasStyle = false) (row : L
   · rw [getD_ge _ _ _ (by omega)]
     simp [Cell.counted, Cell.dflt, hdef]
 
+theorem norm_of_not_counted_env (e : Env) (hdef : EnvOk e) (c : Cell)
+    (h : Cell.counted e.rawOf c = false) : (tcellOf e.attrsOf c).norm = TCell.blank := by
+  simp only [Cell.counted, Bool.or_eq_false_iff, bne_eq_false_iff_eq] at h
+  have := hdef.enc _ h.2
+  simp [TCell.norm, tcellOf, h.1, Env.attrsOf, this]
+
 theorem norm_of_not_counted (a : Nat → Attrs) (c : Cell) (h : Cell.counted a c = false) :
     (tcellOf a c).norm = TCell.blank := by
   simp only [Cell.counted, Bool.or_eq_false_iff, bne_eq_false_iff_eq] at h
   simp [TCell.norm, tcellOf, h.1, h.2]
 
 theorem rowAfter_shows (e : Env) (s prev : Screen) (y : Nat) (old : Nat → TCell)
-    (hdef : (e.attrsOf 1).hasStyle = false)
+    (hdef : EnvOk e)
     (hold : ∀ x, x < e.w → (old x).norm = (tcellOf e.attrsOf (cellAt (prev.row y) x)).norm) :
     ∀ x, x < e.w →
       (rowAfter e s prev y old x).norm = (tcellOf e.attrsOf (cellAt (s.row y) x)).norm := by
@@ -328,16 +341,16 @@ theorem rowAfter_shows (e : Env) (s prev : Screen) (y : Nat) (old : Nat → TCel
       simp only [tcellOf, hd.1, hd.2]
   · simp only [h1, if_false]
     have hnew : (tcellOf e.attrsOf (cellAt (s.row y) x)).norm = TCell.blank := by
-      apply norm_of_not_counted
-      apply not_counted _ hdef
+      apply norm_of_not_counted_env e hdef
+      apply not_counted _ hdef.dflt
       unfold lineLen at h1; omega
     rw [hnew]
     by_cases h2 : lineLen e (s.row y) < lineLen e (prev.row y)
     · simp only [h2, if_true, blank_norm]
     · simp only [h2, if_false]
       rw [hold x hx]
-      apply norm_of_not_counted
-      apply not_counted _ hdef
+      apply norm_of_not_counted_env e hdef
+      apply not_counted _ hdef.dflt
       unfold lineLen at h1 h2; omega
 
 theorem narrow_dflt (h1 : cw ' ' = 1) : NarrowCell cw Cell.dflt :=
@@ -362,7 +375,7 @@ theorem row_nil_of_WF (s : Screen) (h : WF s) (y : Nat) (hy : s.height ≤ y) : 
 
 /-- the row loop and the tail of the differ, started in a state `T1` that shows `pscr` -/
 theorem core (e : Env) (s pscr : Screen) (isDone : Bool) (T1 : Term) (p1 : Point) (l1 : Option Nat)
-    (hdef : (e.attrsOf 1).hasStyle = false)
+    (hdef : EnvOk e)
     (nar : ∀ y x, NarrowCell cw (cellAt (s.row y) x))
     (wfs : WF s) (wfp : WF pscr)
     (g : Good e T1 p1 l1) (hnc : NoCont T1) (hsh : Shows e T1 pscr)
@@ -466,21 +479,22 @@ def prevHeight : Option Screen → Nat
   | none => 0
   | some ps => ps.height
 
-theorem shows_empty_of_blank (e : Env) (T : Term) (hdef : (e.attrsOf 1).hasStyle = false)
+theorem shows_empty_of_blank (e : Env) (T : Term) (hdef : EnvOk e)
     (h : ∀ y x, T.cells y x = TCell.blank) : Shows e T Screen.empty := by
   intro y x _ _
   rw [h y x, blank_norm]
   have : Screen.empty.row y = [] := by simp [Screen.row, Screen.empty, List.getD]
   rw [this]
   symm
-  apply norm_of_not_counted
-  simp [cellAt, List.getD, Cell.counted, Cell.dflt, hdef]
+  apply norm_of_not_counted_env e hdef
+  have := hdef.dflt
+  simp [cellAt, List.getD, Cell.counted, Cell.dflt, this]
 
 /-- Everything the differ's output does to a terminal, in one statement (the named theorems of
     `Ptk.Props.C06` are projections of this one). -/
 theorem diff_master (e : Env) (s : Screen) (pos : Point) (prev : Option Screen) (last : Option Nat)
     (isDone : Bool) (pw : Nat) (T : Term)
-    (h1 : cw ' ' = 1) (hdef : (e.attrsOf 1).hasStyle = false)
+    (h1 : cw ' ' = 1) (hdef : EnvOk e)
     (hn : Narrow cw s) (wfs : WF s)
     (pre : Pre e T pos last prev)
     (hprev : ∀ ps, prev = some ps → (isDone || pw != e.w) = false → Shows e T ps ∧ NoCont T ∧ WF ps)
